@@ -31,7 +31,7 @@ for sd in sorted(glob.glob('/verif/seeded/*/')):
            'confirmed_by':'/verif/seed_confirm.sh: patch applied in a fresh scratch worktree of /repo HEAD; go build ./...; whole existing suite passes; demo fails with the change and passes after git apply -R',
            'check_run':'/verif/seed_run.sh %s patch.diff %s  (hv check %s --tier quick against a scratch worktree with the patch applied)'%(sid,prop,prop),
            'first_pass_detected': f0['exit']==1,
-           'origin':'written by an independent sub-agent that saw only the property text and its own worktree (round 3)'}
+           'origin':'written by an independent sub-agent that saw only the property text and its own worktree (round %s)' % ('4' if sid.startswith('r4') else '3')}
     else:
         continue
     if f1 is not None:
